@@ -325,6 +325,30 @@ func cmdCheck(args []string) int {
 		return 2
 	}
 	loadMs := time.Since(t0).Milliseconds()
+	// speculative loop frames known not to hold on the recorded tree (performance hint only: dropping a frame never
+	// makes anything provable that was not, so a stale entry costs precision, not soundness)
+	framesFile := filepath.Join(verifDir, "tools", "autoframes.json")
+	if data, err := os.ReadFile(framesFile); err == nil {
+		var ks []string
+		if json.Unmarshal(data, &ks) == nil {
+			for _, k := range ks {
+				ld.eng.disabledFrames[k] = true
+			}
+		}
+	}
+	defer func() {
+		if os.Getenv("GVC_RECORD_FRAMES") == "" {
+			return
+		}
+		var ks []string
+		for k := range ld.eng.disabledFrames {
+			ks = append(ks, k)
+		}
+		sort.Strings(ks)
+		if data, err := json.MarshalIndent(ks, "", " "); err == nil {
+			os.WriteFile(framesFile, data, 0o644)
+		}
+	}()
 	var reports []*FuncReport
 	problems := 0
 	for _, cf := range ld.files {
